@@ -25,6 +25,18 @@ Keys (hex values; `-` or empty is the empty string):
   tcb=nil|set  pem=fail|<certs>  tcbx=fail|<n>:<lastid>  tis qis   (signature hex strings)
   ti=none|<id|version|issue|next|fmspc|eval|levels|modules>
   qi=none|<id|version|issue|next|eval|misc|miscmask|attr|attrmask|mrsigner|prodid|levels>
+  lv=<idx>:<status>|err:<stage>   optional: what the real getTCBLevel returned for the TCB info
+                        of `ti`, the PCK certificate's SVNs and the TD report's TEE TCB SVNs
+                        (index into tcbLevels and status of the selected level)
+  mt=<0|1 per level>    optional: the real TCBLevel.matches for every level of `ti`
+  vt=ok|<stage>         optional: the real validateTCBLevel (under the line's lax switch)
+  ood=<status>          optional: Status of the TCBOutOfDateError Quote.Verify returned
+  vb=<12 x 0|1>         optional (with the registration keys): SGXConstraints.ValidateBasic for
+                        TDX feature off/on x feature version 26.1 off/on x structure version 0,1,2
+  dq=ok|<stage>         optional: QEIdentity.validate then QEIdentity.verify, called directly on
+                        the decoded QE identity of `qi` and the QE report (no signature involved)
+  dt=ok|<stage>         optional: TCBInfo.validate, validateFMSPC, validateTCBLevel called directly
+                        on the decoded TCB info of `ti` with the PCK certificate's FMSPC and SVNs
   raw=<hex>             optional: the raw quote; the model parses it itself (Parse.lean) and
                         its parts must equal the ones above (`rawerr=<class>` if Go rejected it)
 -/
@@ -254,7 +266,9 @@ def parseRegistration (m : KV) (pol : Option Policy) : Except String (Option (Fe
         let dp ← parsePolicyP m "d"
         pure (some ({ ias := if dias then some 2 else none, pcs := dp } : QPolicy))
       | _ => throw "bad def"
-    pure (some ({ pcs := fspcs, defaultPolicy := defp }, sc))
+    let satt := (get m "satt") == some "1"
+    let defage := ((get m "defage").bind String.toNat?).getD 0
+    pure (some ({ pcs := fspcs, defaultPolicy := defp, signedAttestations := satt, defaultMaxAge := defage }, sc))
 
 /-- Symbolic stand-ins for the two signed JSON bodies (the model never looks inside them). -/
 def tagTcb : Bytes := [1]
@@ -425,6 +439,44 @@ def checkAtt (m : KV) (c : Case) (res : Except Stage Verified) : Option String :
       let ok := match reg with
         | some (fs, sc) => registrationOK c.L c.env fs sc c.ts c.q c.tcb allowed rak
         | none => attestationOK c.L c.env c.pol c.ts c.q c.tcb allowed rak
+      let vbBad : Option String :=
+        match get m "vb" with
+        | none => none
+        | some ivb =>
+          let (fs0, sc0) : Features × Option QPolicy := match reg with
+            | some (fs, sc) => (fs, sc)
+            | none => ({ pcs := true, defaultPolicy := none }, some { ias := none, pcs := c.pol })
+          let combos := [false, true].flatMap fun t => [false, true].flatMap fun f => [0, 1, 2].map fun v => (t, f, v)
+          let mine := String.join (combos.map fun (t, f, v) =>
+            if constraintsValidateBasic { fs0 with tdx := t } f v sc0 then "1" else "0")
+          if mine != ivb then some s!"attestation validate-basic model={mine} impl={ivb}" else none
+      match vbBad with
+      | some d => some d
+      | none =>
+      match get m "satt" with
+      | some sattS =>
+        -- signed attestations: the full SGXAttestation.Verify
+        let nat (k : String) : Nat := ((get m k).bind String.toNat?).getD 0
+        let vsa := get m "vsa" == some "1"
+        let rek : Option Bytes := match get m "rek" with
+          | some "-" => none
+          | some r => hex r
+          | none => none
+        let nid := ((get m "nid").bind hex).getD []
+        let (fs, sc) : Features × Option QPolicy := match reg with
+          | some (fs, sc) => (fs, sc)
+          | none => ({ pcs := true, defaultPolicy := none, signedAttestations := sattS == "1",
+                       defaultMaxAge := nat "defage" }, some { ias := none, pcs := c.pol })
+        let expected : AttMsg :=
+          { reportData := (identityOf c.L c.q.bodyKind c.q.bodyRaw).reportData, nodeId := nid,
+            height := nat "sah", rek := rek }
+        let r := attestationVerify c.L (fun _ msg _ => msg == expected && vsa) c.env fs sc
+          (nat "scage") c.ts (nat "nowh") c.q c.tcb allowed [] rak rek nid
+          { height := nat "sah", sig := [] }
+        if r.name != ia then some s!"attestation model={r.name} impl={ia}"
+        else if !fs.signedAttestations && ok != (ia == "ok") then some s!"attestationOK={ok} impl={ia}"
+        else none
+      | none =>
       if want != ia then some s!"attestation model={want} impl={ia}"
       else if ok != (ia == "ok") then some s!"attestationOK={ok} impl={ia}"
       else none
@@ -442,6 +494,117 @@ def specNotes (c : Case) (res : Except Stage Verified) : String :=
       (if blacklistedByValue (c.pol.getD defaultPolicy) ti then " spec=blacklist-case" else "")
     | none => ""
   | _, _ => ""
+
+/-- SVNs of the platform as the PCK certificate states them (whether or not the chain verifies). -/
+def platOf (q : Quote) : Option (List Int × Nat) :=
+  match q.certData with
+  | .chain (leaf :: _) =>
+    match leaf.ext with
+    | .ok _ svn pce => some (svn, pce)
+    | .bad => none
+  | _ => none
+
+def tdxOf (q : Quote) : Option (List Nat) :=
+  if q.teeType = teeTDX then some (tdTeeTcbSvn q.bodyRaw) else none
+
+def tiOf (c : Case) : Option TcbInfo := c.tcb.bind fun b => c.L.jsonTcb b.tcbInfo.raw
+def qiOf (c : Case) : Option QeIdentity := c.tcb.bind fun b => c.L.jsonQe b.qeId.raw
+
+def showLevel (ti : TcbInfo) (sgx : List Int) (tdx : Option (List Nat)) (pce : Nat) : String :=
+  match getTcbLevel ti sgx tdx pce with
+  | .error s => "err:" ++ s.name
+  | .ok lvl =>
+    match ti.levels.findIdx? (fun l => l.matches sgx tdx pce) with
+    | some i => s!"{i}:{lvl.status}"
+    | none => "?"
+
+/-- The status a `TCBOutOfDateError` carries, for the three stages that return one. -/
+def oodStatus (c : Case) (st : Stage) : Option Nat :=
+  match st with
+  | .levelStatus =>
+    match tiOf c, platOf c.q with
+    | some ti, some (svn, pce) =>
+      match getTcbLevel ti svn (tdxOf c.q) pce with
+      | .ok lvl => some lvl.status
+      | .error _ => none
+    | _, _ => none
+  | .tdxModuleStatus =>
+    match tiOf c, tdxOf c.q with
+    | some ti, some t =>
+      (ti.modules.find? (fun m => m.id == tdxModuleName (t.getD 1 0))).bind fun m =>
+        (enclaveLevel m.levels (t.getD 0 0)).map (·.status)
+    | _, _ => none
+  | .qeidStatus =>
+    (qiOf c).bind fun qe => (enclaveLevel qe.levels (sgxIsvSvn c.q.qeReport)).map (·.status)
+  | _ => none
+
+/-- TCB level selection compared directly with the real `getTCBLevel`, `matches`,
+`validateTCBLevel` and with the status inside the returned error. -/
+def checkLevel (m : KV) (c : Case) (res : Except Stage Verified) : Option String :=
+  let direct : Option String :=
+    match get m "lv", tiOf c, platOf c.q with
+    | some lv, some ti, some (svn, pce) =>
+      let tdx := tdxOf c.q
+      let mine := showLevel ti svn tdx pce
+      if mine != lv then some s!"tcblevel model={mine} impl={lv}" else
+      let mt := String.join (ti.levels.map fun l => if l.matches svn tdx pce then "1" else "0")
+      let mt := if mt == "" then "-" else mt
+      match get m "mt" with
+      | some imt => if imt != mt then some s!"tcbmatches model={mt} impl={imt}" else
+        match get m "vt" with
+        | some vt =>
+          let mv := match getTcbLevel ti svn tdx pce with
+            | .error s => s.name
+            | .ok lvl => if statusAllowed c.env.lax lvl.status then "ok" else "levelStatus"
+          if mv != vt then some s!"tcbvalidate model={mv} impl={vt}" else none
+        | none => none
+      | none => none
+    | _, _, _ => none
+  match direct with
+  | some d => some d
+  | none =>
+    match get m "ood", res with
+    | some o, .error st =>
+      match oodStatus c st with
+      | some s => if toString s != o then some s!"tcbstatus model={s} impl={o} stage={st.name}" else none
+      | none => some s!"tcbstatus model=none impl={o} stage={st.name}"
+    | some o, .ok _ => some s!"tcbstatus model=accept impl={o}"
+    | none, _ => none
+
+/-- A well-formed signature string (128 hex digits) for the direct calls. -/
+def someSigHex : Bytes := List.replicate 128 48
+
+/-- The pure decision functions compared directly: the model's `openQeIdentity` / `qeIdentityVerify`
+and `verifyTcbInfo` are run with the signature oracle answering `true`, which leaves exactly
+`QEIdentity.validate` + `verify` and `TCBInfo.validate` + `validateFMSPC` + `validateTCBLevel`. -/
+def checkDirect (m : KV) (c : Case) : Option String :=
+  let pol := c.pol.getD defaultPolicy
+  let dq : Option String :=
+    match get m "dq", qiOf c with
+    | some idq, some qe =>
+      let L' : Lib := { c.L with ecdsaOK := fun _ _ _ => true, jsonQe := fun _ => some qe }
+      let mine := match openQeIdentity L' c.q.teeType c.ts pol [] ⟨[], someSigHex⟩ with
+        | .error s => s.name
+        | .ok qe' => match qeIdentityVerify qe' c.q.qeReport with
+          | .error s => s.name
+          | .ok _ => "ok"
+      if mine != idq then some s!"direct-qe model={mine} impl={idq}" else none
+    | _, _ => none
+  match dq with
+  | some d => some d
+  | none =>
+    match get m "dt", tiOf c, c.q.certData with
+    | some idt, some ti, .chain (leaf :: _) =>
+      match leaf.ext with
+      | .ok (some f) svn pce =>
+        let L' : Lib := { c.L with ecdsaOK := fun _ _ _ => true, jsonTcb := fun _ => some ti }
+        let pck : PckInfo := { pk := [], fmspc := f, compSvn := svn, pcesvn := pce }
+        let mine := match verifyTcbInfo L' c.env c.q.teeType c.ts pol [] ⟨[], someSigHex⟩ pck (tdxOf c.q) with
+          | .error s => s.name
+          | .ok _ => "ok"
+        if mine != idt then some s!"direct-tcbinfo model={mine} impl={idt}" else none
+      | _ => none
+    | _, _, _ => none
 
 def step (_ : Unit) (line : String) : Unit × String :=
   let m := kvs line
@@ -463,6 +626,12 @@ def step (_ : Unit) (line : String) : Unit × String :=
     let r := showResult res
     let impl := (get m "impl").getD ""
     match checkAtt m c res with
+    | some d => ((), "DIVERGE " ++ d)
+    | none =>
+    match checkLevel m c res with
+    | some d => ((), "DIVERGE " ++ d)
+    | none =>
+    match checkDirect m c with
     | some d => ((), "DIVERGE " ++ d)
     | none =>
     if r == impl then ((), "ok" ++ specNotes c res)
